@@ -5,7 +5,7 @@ from __future__ import annotations
 from hypothesis import strategies as st
 
 from vlib import gen
-from vlib.pio import P, mk_tier, snap_tier, quiet
+from vlib.pio import fresh, P, mk_tier, snap_tier, quiet
 
 COPY_OPS = ["crop", "erase", "insert_space", "edit", "union", "difference", "intersection", "merge_labels",
             "append", "dejitter", "morph", "new"]
@@ -23,7 +23,7 @@ def raw_entries(draw, style, is_int):
     """Arbitrary constructor input: unsorted, untrimmed labels, possibly
     overlapping / inverted, times as float, int or numeric string."""
     lat = lattice(style)
-    lab = st.sampled_from(["a", " a", "b ", "\tc\n", "", "  ", "x y", "a-b"])
+    lab = st.sampled_from(["a", " a", "b ", "\tc\n", "", "  ", "x y", "a-b", "\u00a0a", "b\u2028", "\u3000c\x1c", "\x85"])  # str.strip() knows all of these
     n = draw(st.integers(0, 5))
     ents = []
     wellformed = draw(st.integers(0, 3)) > 0
@@ -93,7 +93,7 @@ def op_strategy(draw, style):
     elif kind == "edit":
         op.update(offset=draw(st.one_of(lat, lat.map(lambda t: -t))), mode=draw(st.sampled_from(["silence", "warning", "error"])))
     elif kind == "insert_entry":
-        op.update(a=draw(st.one_of(lat, lat, st.sampled_from([0.0, 0.125]))), b=draw(st.one_of(lat, lat, st.sampled_from([20.0, 40.0]))), label=draw(st.sampled_from(["n", " n ", "", "m\n", "x"])),
+        op.update(a=draw(st.one_of(lat, lat, st.sampled_from([0.0, 0.125]))), b=draw(st.one_of(lat, lat, st.sampled_from([20.0, 40.0]))), label=draw(st.sampled_from(["n", " n ", "", "m\n", "x", "\u00a0n", "n\u2029", "\u3000"])),
                   mode=draw(st.sampled_from(["error", "error", "error", "replace", "merge", "merge", "replace", "bogus"])),
                   report=draw(st.sampled_from(["silence", "warning", "silence", "warning", "bogus", "error"])),  # 'error' is accepted by the option check although the signature documents silence|warning only
                   form=draw(st.sampled_from(["obj", "tuple", "list"])))
@@ -124,8 +124,14 @@ def histories(draw, max_steps=12):
         if t["type"] == "interval" and style != "grid" and draw(st.integers(0, 5)) == 0:
             # a labelled interval of a few nanoseconds at the end: short, and as well-formed as any other
             b0 = max([e[1] for e in t["entries"]] + [t["minT"]]) + draw(st.sampled_from([0.0, 0.5]))
-            t["entries"] = t["entries"] + [[b0, b0 + 4e-9, "a"]]
-            t["maxT"] = max(t["maxT"], b0 + 4e-9)
+            if draw(st.booleans()):
+                t["entries"] = t["entries"] + [[b0, b0 + 4e-9, "a"]]
+                t["maxT"] = max(t["maxT"], b0 + 4e-9)
+            else:
+                # two of them side by side, closer to each other than the library's fuzzy entry equality
+                w = max(b0, 1.0) * 3e-10
+                t["entries"] = t["entries"] + [[b0, b0 + w, "a"], [b0 + w, b0 + 2 * w, "a"]]
+                t["maxT"] = max(t["maxT"], b0 + 2 * w)
     n = draw(st.integers(1, max_steps))
     return {"style": style, "init": init, "ops": [draw(op_strategy(style)) for _ in range(n)]}
 
@@ -176,13 +182,13 @@ def apply_op(tiers: list, op: dict) -> StepResult:
             r.in_domain = False
         r.result = call(lambda: cls("c", ents, op["minT"], op["maxT"]))
     elif kind == "crop":
-        r.result = call(lambda: T.crop(op["a"], op["b"], op["mode"], op["rebase"]))
+        r.result = call(lambda: T.crop(op["a"], op["b"], fresh(op["mode"]), op["rebase"]))
     elif kind == "erase":
-        r.result = call(lambda: T.eraseRegion(op["a"], op["b"], op["mode"], op["shrink"]))
+        r.result = call(lambda: T.eraseRegion(op["a"], op["b"], fresh(op["mode"]), op["shrink"]))
     elif kind == "insert_space":
         if op["d"] <= 0:
             r.in_domain = False
-        r.result = call(lambda: T.insertSpace(op["s"], op["d"], op["mode"]))
+        r.result = call(lambda: T.insertSpace(op["s"], op["d"], fresh(op["mode"])))
     elif kind == "edit":
         r.result = call(lambda: T.editTimestamps(op["offset"], op["mode"]))
     elif kind == "insert_entry":
@@ -196,6 +202,9 @@ def apply_op(tiers: list, op: dict) -> StepResult:
                 i0 = op["near"] % (len(ents0) - 1)
                 a = math.nextafter(ents0[i0].end, -math.inf)
                 b = (ents0[i0 + 1].start + ents0[i0 + 1].end) / 2
+                if op.get("near_k", 0) % 2 == 1:
+                    # exactly the extent of the last interval (collides with that one only)
+                    a, b = ents0[-1].start, ents0[-1].end
             if a >= b:
                 r.in_domain = False
             ent = (a, b, op["label"])
@@ -212,7 +221,7 @@ def apply_op(tiers: list, op: dict) -> StepResult:
             ent = (t_new, op["label"])
             obj = p.Point(*ent)
         arg = obj if op["form"] == "obj" else (tuple(ent) if op["form"] == "tuple" else list(ent))
-        call(lambda: T.insertEntry(arg, op["mode"], op["report"]))
+        call(lambda: T.insertEntry(arg, fresh(op["mode"]), fresh(op["report"])))
     elif kind == "delete_entry":
         r.mutator = True
         ents = list(T.entries)
